@@ -624,3 +624,193 @@ Lemma snap_model_passes_monitor_l id keep t olds0 ops : (1 <= keep)%nat -> (keep
   check_case (id, PSnap keep t olds0 ops (snap_model_obs keep t (None :: olds0) ops)) = [].
 Proof. intros Hk Hw Ht Hb Hops. cbn [check_case]. apply snap_check_model_passes; auto.
   intros f [<-|Hf]; [apply fold_ok_none|now apply Hb]. Qed.
+
+(* soundness for the snapshot kind: what a history without codes 15 and 10 says, walking the observed listings *)
+Fixpoint snap_spec (keep : nat) (t : ptable) (before : listing) (ops : list sop)
+         (obs : list (listing * list entry * list entry)) : Prop :=
+  match ops, obs with
+  | op :: ops', (after, off, raw) :: obs' =>
+      (* a saved pinset reads back offline, through OfflineState and through LastStateRaw + Unmarshal *)
+      (match op with
+       | OSave i | OMore i => off = pinset_of t i /\ raw = pinset_of t i
+       | OStart => forall m i, hd None before = Some (m, Some i) -> off = pinset_of t i
+       | _ => True end) /\
+      (* data that held a snapshot is the newest backup afterwards, older ones shift, the rest is untouched *)
+      (forall m i, hd None before = Some (m, Some i) -> (op = OClean \/ exists j, op = OSave j) ->
+         let o := to_olds before in let o' := to_olds after in let n := prefix o keep 0 in
+         (op = OClean -> hd None after = None) /\ o' O = Some (m, Some i) /\
+         (forall k, (k < window before)%nat -> (k < n)%nat -> (S k < keep)%nat -> o' (S k) = o k) /\
+         (forall j, (j < window before)%nat -> (n < j)%nat \/ (keep <= j)%nat -> o' j = o j)) /\
+      snap_spec keep t after ops' obs'
+  | _, _ => True
+  end.
+
+Lemma snap_check_sound id keep t : forall ops obs before,
+  (forall c, In c (snap_check id keep t before ops obs) -> snd (fst c) <> 15 /\ snd (fst c) <> 10) ->
+  snap_spec keep t before ops obs.
+Proof. induction ops as [|op r IH]; intros obs before H; [exact I|].
+  destruct obs as [|[[after off] raw] obs']; [exact I|]. cbn [snap_check] in H. cbv zeta in H. cbn [snap_spec].
+  assert (Hin : forall (c : N * N * N) X Y Z W, In c Y \/ In c Z \/ In c W -> In c (X ++ Y ++ Z ++ W)).
+  { intros c X Y Z W HH. rewrite !in_app_iff. tauto. }
+  split; [|split].
+  - destruct op as [i| |m|i|]; auto.
+    + destruct (entries_eqb off (pinset_of t i) && entries_eqb raw (pinset_of t i)) eqn:E.
+      * apply andb_true_iff in E. destruct E as [E1 E2]. apply entries_eqb_eq in E1, E2. auto.
+      * exfalso. destruct (H (id, 15, 0)) as [A _]; [|now apply A]. apply Hin. left. cbv beta iota. try rewrite E. now left.
+    + destruct (entries_eqb off (pinset_of t i) && entries_eqb raw (pinset_of t i)) eqn:E.
+      * apply andb_true_iff in E. destruct E as [E1 E2]. apply entries_eqb_eq in E1, E2. auto.
+      * exfalso. destruct (H (id, 15, 0)) as [A _]; [|now apply A]. apply Hin. left. cbv beta iota. try rewrite E. now left.
+    + intros m i Eh. destruct (entries_eqb off (pinset_of t i)) eqn:E; [now apply entries_eqb_eq|].
+      exfalso. destruct (H (id, 15, 0)) as [A _]; [|now apply A]. apply Hin. left. cbv beta iota. rewrite Eh. try rewrite E. now left.
+  - intros m i Eh Hop. cbv zeta.
+    assert (Es : sop_step op before = Some (Some (m, Some i), true)).
+    { unfold sop_step. rewrite Eh. destruct Hop as [->|[j ->]]; reflexivity. }
+    set (after' := match op with OSave _ => set_live None after | _ => after end).
+    assert (Hb : bk_step_okb keep before (Some (m, Some i), true) after' = true).
+    { destruct (bk_step_okb keep before (Some (m, Some i), true) after') eqn:E; auto. exfalso.
+      destruct (H (id, 10, 0)) as [_ A]; [|now apply A]. apply Hin. right. left. rewrite Es. fold after'. rewrite E. now left. }
+    destruct (bk_step_okb_sound keep before _ after' (m, Some i) Hb eq_refl) as [S1 [S2 [S3 S4]]].
+    assert (Eo : to_olds after' = to_olds after) by (unfold after'; destruct op; reflexivity).
+    rewrite Eo in S2, S3, S4. repeat split; auto.
+    intros ->. exact S1.
+  - apply IH. intros c Hc. apply H. apply Hin. right. right. exact Hc. Qed.
+
+Lemma snap_monitor_sound_l id keep t olds0 ops obs :
+  (forall c, In c (check_case (id, PSnap keep t olds0 ops obs)) -> snd (fst c) <> 15 /\ snd (fst c) <> 10) ->
+  snap_spec keep t (None :: olds0) ops obs.
+Proof. cbn [check_case]. apply snap_check_sound. Qed.
+
+(* ================================================================== *)
+(* Export / import through a state manager: codes 16, 17, 18           *)
+(* ================================================================== *)
+
+(* the destination the harness prepares: empty, or holding pinset number i *)
+Definition export_dst_raft (t : ptable) (dst0 : option N) : dir snapshot :=
+  mk_dir (match dst0 with Some i => Some (7, Some (pinset_of t i)) | None => None end) (fun _ => None).
+Definition export_dst_crdt (t : ptable) (dst0 : option N) : pstate := match dst0 with Some i => pinset_of t i | None => [] end.
+
+(* what the model answers to an import of `lines`: result code, pinset afterwards, (raft) directory listing through a window w *)
+Definition export_model_obs (mgr : N) (keep : nat) (t : ptable) (dst0 : option N) (lines : list jline) (w : nat)
+  : N * list entry * listing :=
+  if N.eqb mgr 0 then
+    let '(d', r) := raft_import keep (fun x => x) lines (export_dst_raft t dst0) in
+    (imp_code r, sorted_entries (offline_state d' []), snap_listing t w d')
+  else
+    let '(s', r) := crdt_import lines (export_dst_crdt t dst0) in (imp_code r, sorted_entries s', []).
+
+Definition export_model_case (id mgr : N) (keep : nat) (t : ptable) (src : N) (dst0 : option N) (exported : list entry)
+           (lines : list jline) (edited : bool) (w : nat) : case :=
+  let '(res, aft, lst) := export_model_obs mgr keep t dst0 lines w in
+  (id, PExport mgr keep t src dst0 exported lines edited res aft lst).
+
+Lemma snap_listing_length t w d : length (snap_listing t w d) = S w.
+Proof. rewrite snap_listing_dec, map_length. cbn [length]. now rewrite map_length, seq_length. Qed.
+
+Lemma sorted_of_perm ord pins : order_oracle ord -> cid_sorted pins -> sorted_entries (ord pins) = pins.
+Proof. intros Ho Hp. pose proof (cid_sorted_nodup pins Hp) as Hn. apply sorted_entries_canon; auto.
+  - unfold keys_nodup. eapply Permutation_NoDup; [apply Permutation_map, Permutation_sym, Ho|exact Hn].
+  - intros c. symmetry. apply aget_perm; auto. apply Permutation_sym, Ho. Qed.
+
+Lemma has_origins_false es : has_origins es = false -> forallb decodable es = true.
+Proof. unfold has_origins. induction es as [|e r IH]; [reflexivity|]. cbn [existsb forallb]. rewrite orb_false_iff, negb_false_iff.
+  intros [-> H]. now rewrite IH. Qed.
+
+(* importing the unedited export of a decodable pinset: the imported store lists as the pinset *)
+Lemma import_export_sorted ord pins : order_oracle ord -> cid_sorted pins -> has_origins (ord pins) = false ->
+  import_lines (map JPin (ord pins)) [] = Some (unmarshal (ord pins) []) /\
+  sorted_entries (unmarshal (ord pins) []) = pins /\
+  sorted_entries (unmarshal (unmarshal (ord pins) []) []) = pins.
+Proof. intros Ho Hp Hd. apply has_origins_false in Hd. split; [now apply import_decodable|].
+  pose proof (cid_sorted_nodup pins Hp) as Hn.
+  assert (H1 : same_pinset (unmarshal (ord pins) []) pins) by (apply (marshal_unmarshal_same ord pins); auto).
+  assert (N1 : keys_nodup (unmarshal (ord pins) [])) by apply unmarshal_nodup, keys_nodup_nil.
+  split; [now apply sorted_entries_canon|].
+  apply sorted_entries_canon; auto; [apply unmarshal_nodup, keys_nodup_nil|].
+  eapply same_pinset_trans; [|exact H1]. apply (marshal_unmarshal_same (fun x => x) _ order_oracle_id N1). Qed.
+
+Lemma raft_import_code keep ord ls d : imp_code (snd (raft_import keep ord ls d)) <> 2.
+Proof. unfold raft_import. destruct (import_lines ls (offline_state (cleanup keep d) [])); cbn [snd imp_code]; discriminate. Qed.
+
+(* The model's own answers fail no monitor except in the shape of the two listed findings (tag 1: a pin with origins does
+   not import, S19; tag 2: the crdt manager dies on an empty stream), for every manager, retention, table, destination,
+   datastore order, stream (edited or not) and listing window *)
+Lemma export_model_only_findings_l id mgr keep t src dst0 ord lines edited w :
+  order_oracle ord -> cid_sorted (pinset_of t src) ->
+  let exported := ord (pinset_of t src) in
+  (edited = false -> lines = map JPin exported) ->
+  forall c, In c (check_case (export_model_case id mgr keep t src dst0 exported lines edited w)) ->
+    (snd (fst c) = 17 \/ snd (fst c) = 18) /\
+    (snd c = 1 /\ is_S19 exported = true \/ snd c = 2 /\ is_empty_crdt_import mgr lines = true).
+Proof. intros Ho Hp exported Hl c. unfold export_model_case, export_model_obs.
+  assert (E16 : entries_eqb (sorted_entries exported) (pinset_of t src) = true).
+  { unfold exported. rewrite (sorted_of_perm ord _ Ho Hp). apply entries_eqb_refl. }
+  destruct (N.eqb_spec mgr 0) as [->|Hm].
+  - (* raft *)
+    destruct (raft_import keep (fun x => x) lines (export_dst_raft t dst0)) as [d' r] eqn:Er.
+    cbn [check_case]. unfold export_check. rewrite E16. cbn [app N.eqb]. unfold export_dst_raft in Er. rewrite Er.
+    rewrite snap_listing_length. cbn [Nat.pred]. rewrite N.eqb_refl, entries_eqb_refl, listing_eqb_refl. cbn [andb app].
+    assert (Hr : imp_code r <> 2) by (pose proof (raft_import_code keep (fun x => x) lines (export_dst_raft t dst0)) as X;
+      unfold export_dst_raft in X; rewrite Er in X; exact X).
+    destruct (N.eqb_spec (imp_code r) 2) as [E|_]; [contradiction|]. rewrite app_nil_r.
+    destruct edited; [intros []|]. specialize (Hl eq_refl).
+    destruct (is_S19 exported) eqn:ES.
+    + destruct (N.eqb (imp_code r) 0 && _); intros Hc; [destruct Hc|]. destruct Hc as [<-|[]]. cbn [fst snd]. auto.
+    + unfold is_S19 in ES. destruct (import_export_sorted ord _ Ho Hp ES) as [I1 [I2 I3]]. fold exported in I1, I2, I3.
+      unfold raft_import in Er. rewrite offline_after_cleanup, Hl, I1 in Er. injection Er as <- <-.
+      unfold offline_state. rewrite last_state_after_save. unfold marshal. rewrite I3. cbn [imp_code N.eqb].
+      rewrite entries_eqb_refl. intros [].
+  - (* crdt *)
+    destruct (crdt_import lines (export_dst_crdt t dst0)) as [s' r] eqn:Er.
+    cbn [check_case]. unfold export_check. rewrite E16. cbn [app]. destruct (N.eqb_spec mgr 0) as [->|_]; [contradiction|].
+    unfold export_dst_crdt in Er. rewrite Er. rewrite N.eqb_refl, entries_eqb_refl. cbn [andb app].
+    assert (Hmgr : negb (N.eqb mgr 0) = true) by (destruct (N.eqb_spec mgr 0); [contradiction|reflexivity]).
+    assert (Hcrash : imp_code r = 2 -> lines = []).
+    { unfold crdt_import in Er. destruct (import_lines lines []); [destruct lines|]; injection Er as _ <-; cbn [imp_code]; try discriminate; auto. }
+    intros Hc. apply in_app_or in Hc. destruct Hc as [Hc|Hc].
+    + destruct edited; [destruct Hc|]. specialize (Hl eq_refl).
+      destruct (is_S19 exported) eqn:ES.
+      * destruct (N.eqb (imp_code r) 0 && _); [destruct Hc|]. destruct Hc as [<-|[]]. cbn [fst snd]. auto.
+      * destruct (is_empty_crdt_import mgr lines) eqn:EE.
+        -- destruct (N.eqb (imp_code r) 0 && _); [destruct Hc|]. destruct Hc as [<-|[]]. cbn [fst snd]. auto.
+        -- exfalso. unfold is_S19 in ES. destruct (import_export_sorted ord _ Ho Hp ES) as [I1 [I2 I3]]. fold exported in I1, I2, I3.
+           unfold is_empty_crdt_import in EE. rewrite Hmgr in EE. cbn [andb] in EE.
+           unfold crdt_import in Er. rewrite Hl, I1 in Er. rewrite <- Hl in Er. destruct lines as [|l0 lr]; [discriminate|].
+           injection Er as <- <-. rewrite I2 in Hc. cbn [imp_code N.eqb] in Hc. rewrite entries_eqb_refl in Hc. destruct Hc.
+    + destruct (N.eqb_spec (imp_code r) 2) as [E|_]; [|destruct Hc]. specialize (Hcrash E). subst lines.
+      unfold is_empty_crdt_import in *. rewrite Hmgr in *. cbn [andb] in *. destruct Hc as [<-|[]]. cbn [fst snd]. auto. Qed.
+
+(* completeness for the export kind: outside the two finding shapes the model's own answers raise no code *)
+Lemma export_model_passes_monitor_l id mgr keep t src dst0 ord lines edited w :
+  order_oracle ord -> cid_sorted (pinset_of t src) ->
+  let exported := ord (pinset_of t src) in
+  (edited = false -> lines = map JPin exported) ->
+  no_origins (pinset_of t src) -> (mgr <> 0 -> lines <> []) ->
+  check_case (export_model_case id mgr keep t src dst0 exported lines edited w) = [].
+Proof. intros Ho Hp exported Hl Hno Hne.
+  destruct (check_case (export_model_case id mgr keep t src dst0 exported lines edited w)) as [|c r] eqn:E; [reflexivity|]. exfalso.
+  destruct (export_model_only_findings_l id mgr keep t src dst0 ord lines edited w Ho Hp Hl c) as [_ [[_ H]|[_ H]]].
+  - fold exported. rewrite E. now left.
+  - unfold is_S19, has_origins in H. apply existsb_exists in H. destruct H as [e [He Hd]].
+    unfold no_origins in Hno. rewrite forallb_forall in Hno. rewrite (Hno e) in Hd; [discriminate|].
+    eapply Permutation_in; [apply Ho|exact He].
+  - unfold is_empty_crdt_import in H. apply andb_true_iff in H. destruct H as [H1 H2].
+    destruct (N.eqb_spec mgr 0) as [->|Hm]; [discriminate|]. destruct lines; [now apply Hne|discriminate]. Qed.
+
+(* soundness: an export case without codes 16, 17, 18 *)
+Lemma export_monitor_sound_l id mgr keep t src dst0 exported lines edited obs_res obs_after obs_listing :
+  (forall c, In c (check_case (id, PExport mgr keep t src dst0 exported lines edited obs_res obs_after obs_listing)) ->
+             snd (fst c) <> 16 /\ snd (fst c) <> 17 /\ snd (fst c) <> 18) ->
+  sorted_entries exported = pinset_of t src /\
+  (edited = false -> obs_res = 0 /\ obs_after = pinset_of t src) /\
+  obs_res <> 2.
+Proof. cbn [check_case]. unfold export_check. intros H. split; [|split].
+  - destruct (entries_eqb (sorted_entries exported) (pinset_of t src)) eqn:E; [now apply entries_eqb_eq|].
+    exfalso. destruct (H (id, 16, 0)) as [A _]; [|now apply A]. apply in_or_app. left. right. now left.
+  - intros ->. destruct (N.eqb obs_res 0 && entries_eqb obs_after (pinset_of t src)) eqn:E.
+    + apply andb_true_iff in E. destruct E as [E1 E2]. apply N.eqb_eq in E1. apply entries_eqb_eq in E2. auto.
+    + exfalso. set (tag := if is_S19 exported then 1 else if is_empty_crdt_import mgr lines then 2 else 0).
+      destruct (H (id, 17, tag)) as [_ [A _]]; [|now apply A].
+      apply in_or_app. right. apply in_or_app. right. apply in_or_app. left. now left.
+  - intros ->. set (tag := if is_empty_crdt_import mgr lines then 2 else 0).
+    destruct (H (id, 18, tag)) as [_ [_ A]]; [|now apply A].
+    apply in_or_app. right. apply in_or_app. right. apply in_or_app. right. now left. Qed.
